@@ -188,6 +188,8 @@ func runC04(c *Collector, r *Rng, thorough bool) {
 	}
 	c04EnvelopeWithoutAlg(c, r)
 	c04SignedUnderProtectedAlg(c, r)
+	c04DecodedTextAlg(c)
+	c04SharedSignerHeaders(c)
 }
 
 // c04Reuse: one message object signed, encoded, then re-signed under another algorithm (key rotation: the signature
@@ -742,6 +744,133 @@ func c04SignedUnderProtectedAlg(c *Collector, r *Rng) {
 		if err := cs.Sign(r, signer, parent, nil); err == nil {
 			if tbs, rerr := refCountersign(false, parent, refBstr(pcontent), nil); rerr == nil && !refVerify(k.alg, k.pub, tbs, cs.Signature) {
 				c.Fail("C04/signed-under-other-alg", fmt.Sprintf("countersignature: the signature is not valid under %v, the algorithm in the signed protected bytes", k.alg), rep)
+			}
+		}
+	}
+}
+
+// c04DecodedTextAlg: decoded structures whose protected bytes name the algorithm with a text string (legal CBOR, legal
+// COSE, never equal to a key's integer algorithm): no verifier and no signer is invoked on them, whatever algorithm it
+// reports - the reserved value 0 and unassigned integers included - with or without external data.
+func c04DecodedTextAlg(c *Collector) {
+	for _, ta := range []string{"foo", "ES256", "", "-7", "0"} {
+		pcontent := wMap(-1, wInt(1, -1), wTstr(ta, -1)).Ser()
+		pb := wBstr(pcontent, -1)
+		for _, va := range []cose.Algorithm{0, -7, -8, -65537, 5} {
+			for _, ext := range [][]byte{nil, {}, []byte("e")} {
+				rep := map[string]any{"text_alg": ta, "key_alg": int64(va), "ext": hx(ext)}
+				type trial struct {
+					name   string
+					verify func(vf *spyVerifier) error
+					sign   func(sg *spySigner) error
+				}
+				var trials []trial
+				for _, tagged := range []bool{true, false} {
+					body := wArr(-1, pb.Clone(), wMap(-1), wBstr([]byte("p"), -1), wBstr([]byte{1}, -1))
+					data := body.Ser()
+					var m cose.Sign1Message
+					var err error
+					if tagged {
+						data = wTag(18, -1, body).Ser()
+						err = m.UnmarshalCBOR(data)
+					} else {
+						err = (*cose.UntaggedSign1Message)(&m).UnmarshalCBOR(data)
+					}
+					if err != nil {
+						continue
+					}
+					mm := &m
+					trials = append(trials, trial{fmt.Sprintf("COSE_Sign1 tagged=%v", tagged), func(vf *spyVerifier) error { return mm.Verify(ext, vf) },
+						func(sg *spySigner) error { cp := *mm; cp.Signature = nil; return cp.Sign(nil, ext, sg) }})
+				}
+				sdata := wArr(-1, pb.Clone(), wMap(-1), wBstr([]byte{1}, -1)).Ser()
+				var sg0 cose.Signature
+				if sg0.UnmarshalCBOR(sdata) == nil {
+					trials = append(trials, trial{"COSE_Signature", func(vf *spyVerifier) error { return sg0.Verify(vf, []byte{0x40}, []byte("p"), ext) },
+						func(sg *spySigner) error {
+							cp := sg0
+							cp.Signature = nil
+							return cp.Sign(nil, sg, []byte{0x40}, []byte("p"), ext)
+						}})
+				}
+				var cs0 cose.Countersignature
+				if cs0.UnmarshalCBOR(sdata) == nil {
+					parent := &cose.Sign1Message{Headers: cose.Headers{Protected: cose.ProtectedHeader{}}, Payload: []byte("p"), Signature: []byte{1}}
+					trials = append(trials, trial{"COSE_Countersignature", func(vf *spyVerifier) error { return cs0.Verify(vf, parent, ext) },
+						func(sg *spySigner) error { cp := cs0; cp.Signature = nil; return cp.Sign(nil, sg, parent, ext) }})
+				}
+				if len(ext) == 0 {
+					hp := wBstr(wMap(-1, wInt(1, -1), wTstr(ta, -1), wInt(258, -1), wInt(-16, -1)).Ser(), -1)
+					env := wTag(18, -1, wArr(-1, hp, wMap(-1), wBstr(make([]byte, 32), -1), wBstr([]byte{1}, -1))).Ser()
+					trials = append(trials, trial{"hash envelope", func(vf *spyVerifier) error { _, err := cose.VerifyHashEnvelope(vf, env); return err }, nil})
+				}
+				for _, tr := range trials {
+					c.Eval("decoded-text-alg/"+tr.name, fmt.Sprint(ta, va, len(ext), ext == nil), true)
+					vf := &spyVerifier{alg: va}
+					var err error
+					if p, _ := protect(func() { err = tr.verify(vf) }); p {
+						c.Fail("C04/panic", tr.name+": Verify panicked on a text alg", rep)
+						continue
+					}
+					if len(vf.calls) > 0 || err == nil {
+						c.Fail("C04/decoded-nonint", fmt.Sprintf("%s whose protected bytes say alg %q: a verifier reporting algorithm %d was invoked %d times, Verify returned %v", tr.name, ta, va, len(vf.calls), err), rep)
+					}
+					if tr.sign != nil {
+						sg := &spySigner{alg: va, kind: SOk, sig: []byte{1}}
+						if p, _ := protect(func() { err = tr.sign(sg) }); p {
+							c.Fail("C04/panic", tr.name+": Sign panicked on a text alg", rep)
+							continue
+						}
+						if len(sg.calls) > 0 || err == nil {
+							c.Fail("C04/decoded-nonint", fmt.Sprintf("%s whose protected bytes say alg %q, signed again: a signer reporting algorithm %d was invoked %d times, Sign returned %v", tr.name, ta, va, len(sg.calls), err), rep)
+						}
+					}
+				}
+			}
+		}
+	}
+}
+
+// c04SharedSignerHeaders: a COSE_Sign whose signer entries share one protected map (one template value used for every
+// signer), or list the same *Signature twice, signed by signers of different algorithms without external data: whatever
+// bytes a key signs name that key's algorithm; a signer whose algorithm the shared header contradicts is not invoked.
+func c04SharedSignerHeaders(c *Collector) {
+	for _, mode := range []string{"shared protected map", "same *Signature twice", "shared map, alg preset"} {
+		for _, algs := range [][]cose.Algorithm{{-7, -36}, {-36, -7}, {-7, -8, -7}, {-7, -7}} {
+			shared := cose.ProtectedHeader{}
+			if mode == "shared map, alg preset" {
+				shared[cose.HeaderLabelAlgorithm] = algs[0]
+			}
+			sm := &cose.SignMessage{Headers: cose.Headers{Protected: cose.ProtectedHeader{}}, Payload: []byte("p")}
+			one := &cose.Signature{Headers: cose.Headers{Protected: shared}}
+			var sgs []cose.Signer
+			var spies []*spySigner
+			for range algs {
+				if mode == "same *Signature twice" {
+					sm.Signatures = append(sm.Signatures, one)
+				} else {
+					sm.Signatures = append(sm.Signatures, &cose.Signature{Headers: cose.Headers{Protected: shared}})
+				}
+			}
+			for _, a := range algs {
+				sp := &spySigner{alg: a, kind: SOk, sig: []byte{1, 2}}
+				spies = append(spies, sp)
+				sgs = append(sgs, sp)
+			}
+			var err error
+			rep := map[string]any{"mode": mode, "signer_algs": fmt.Sprint(algs)}
+			if p, _ := protect(func() { err = sm.Sign(nil, nil, sgs...) }); p {
+				c.Fail("C04/panic", "SignMessage.Sign panicked", rep)
+				continue
+			}
+			c.Eval("shared-signer-headers/"+mode, fmt.Sprint(algs), true)
+			for j, sp := range spies {
+				for _, call := range sp.calls {
+					wa, isInt, present := algInWire(tbsElement(call, 2))
+					if !present || !isInt || cose.Algorithm(wa) != sp.alg {
+						c.Fail("C04/signed-under-other-alg", fmt.Sprintf("signer %d (algorithm %d) was handed a structure whose signer protected bytes %x name alg %d (present=%v): Sign returned %v", j, sp.alg, tbsElement(call, 2), wa, present, err), rep)
+					}
+				}
 			}
 		}
 	}
